@@ -230,6 +230,10 @@ func cmdCheck(args []string) {
 		cfg.Thorough = *tier == "thorough"
 		if cfg.Thorough {
 			cfg.TimeoutMs = 60000
+			cfg.Cross = "z3-new" // cross-solver diff of every assertion obligation
+		}
+		if c := os.Getenv("SYMGO_CROSS"); c != "" {
+			cfg.Cross = c
 		}
 		if g.Unwind > 0 {
 			cfg.Unwind = g.Unwind
@@ -440,7 +444,7 @@ func cmdCheck(args []string) {
 			"solver_queries": hr.Solver.Queries, "solver_sat": hr.Solver.Sat, "solver_unsat": hr.Solver.Unsat,
 			"solver_unknown": hr.Solver.Unknown, "solver_s": round2(hr.Solver.Seconds), "wall_s": round2(hr.WallS),
 			"max_decisions": hr.MaxDepth, "symbolic_inputs_max": hr.Vars, "reached": hr.Reaches,
-			"goroutine_switches": hr.Switches,
+			"goroutine_switches": hr.Switches, "cross_checked_obligations": hr.CrossChecked, "cross_solver": hr.CrossSolver, "cross_solver_s": round2(hr.CrossSeconds),
 		})
 	}
 	var knownHit []string
